@@ -335,6 +335,51 @@ def _normalise(fn: ast.FunctionDef, tree: ast.Module, branches: bool = False) ->
 
 
 # ------------------------------------------------------------------------------------------ tokenizer
+def _inline_helper_calls(tree: ast.Module, node: ast.AST, depth: int = 0) -> ast.AST:
+    """`node` with every call of a module-level helper whose body is a single `return <expr>` (after the docstring; positional or
+    keyword arguments, defaults, no *args) replaced by that expression with the parameters substituted:
+    `ESCAPE_RE = _build_escape_re('?/')` reads like the expression the helper returns."""
+    import copy
+    helpers = {}
+    for st in tree.body:
+        if isinstance(st, ast.FunctionDef) and not st.decorator_list:
+            b = _body(st)
+            a = st.args
+            if len(b) == 1 and isinstance(b[0], ast.Return) and b[0].value is not None and not a.vararg and not a.kwarg and not a.posonlyargs and not a.kwonlyargs:
+                helpers[st.name] = st
+
+    class R(ast.NodeTransformer):
+        def visit_Call(self, n: ast.Call) -> ast.AST:   # noqa: N802
+            self.generic_visit(n)
+            if not (isinstance(n.func, ast.Name) and n.func.id in helpers) or depth > 4:
+                return n
+            fn = helpers[n.func.id]
+            params = [x.arg for x in fn.args.args]
+            if any(isinstance(x, ast.Starred) for x in n.args) or any(k.arg is None for k in n.keywords) or len(n.args) > len(params):
+                return n
+            bound: dict[str, ast.AST] = dict(zip(params, n.args))
+            for k in n.keywords:
+                if k.arg not in params or k.arg in bound:
+                    return n
+                bound[k.arg] = k.value   # type: ignore[index]
+            defaults = dict(zip(params[len(params) - len(fn.args.defaults):], fn.args.defaults))
+            for prm in params:
+                if prm not in bound:
+                    if prm not in defaults:
+                        return n
+                    bound[prm] = defaults[prm]
+            # the arguments must be usable several times: literals and names only
+            if not all(isinstance(v, (ast.Constant, ast.Name)) for v in bound.values()):
+                return n
+            expr = copy.deepcopy(_body(fn)[0].value)   # type: ignore[attr-defined]
+            if _stores(expr) & set(params):
+                return n
+            for prm, v in bound.items():
+                expr = _subst(expr, prm, v)
+            return _inline_helper_calls(tree, expr, depth + 1)
+    return R().visit(copy.deepcopy(node))
+
+
 def _tokenizer_tables() -> tuple[list[tuple[int, int]], list[int], dict]:
     tree = ast.parse(src_text('tokenizer.py'))
     esc = _module_assign(tree, 'ESCAPES')
@@ -351,7 +396,7 @@ def _tokenizer_tables() -> tuple[list[tuple[int, int]], list[int], dict]:
     if not _is(inv, "{char: f'\\\\{sym}' for sym, char in ESCAPES.items()}"):
         raise TranslateError('ESCAPES_INV is not the inverse of ESCAPES: ' + ast.unparse(inv))
     # ESCAPE_RE = re.compile('|'.join(re.escape(c) for c in ESCAPES_INV if c not in '?/'))
-    ere = _module_assign(tree, 'ESCAPE_RE')
+    ere = _inline_helper_calls(tree, _module_assign(tree, 'ESCAPE_RE'))
     excl = None
     for n in ast.walk(ere):
         if isinstance(n, ast.Compare) and len(n.ops) == 1 and isinstance(n.ops[0], ast.NotIn):
@@ -625,6 +670,7 @@ def _engine_db() -> dict:
     if set(digests) != {'get_ent', '_parse_block', 'get_fgd'}:
         raise TranslateError('EngineDB.get_ent/_parse_block/get_fgd not found')
     lazy = _lazy_db(edb)
+    bb = _build_blocks(tree)
     layouts = _record_layouts(tree)
     kvw = layouts['kv_serialise']
     special = {}
@@ -634,7 +680,7 @@ def _engine_db() -> dict:
             special['choices' if kvw[i + 1] == 'raise' else 'list'] = vt_alias.get(m.group(1), m.group(1))
     if set(special) != {'list', 'choices'}:
         raise TranslateError(f'kv_serialise: the SPAWNFLAGS / CHOICES branches were not recognised: {kvw}')
-    return dict(lazy=lazy, layouts=layouts, special_types=special, vt_members=vt_members, vt_order=vt_order, et_members=et_members, ft_members=ft_members, ft_order=ft_order,
+    return dict(lazy=lazy, build_blocks=bb, layouts=layouts, special_types=special, vt_members=vt_members, vt_order=vt_order, et_members=et_members, ft_members=ft_members, ft_order=ft_order,
                 ef_members=ef_members, structs=structs, consts=consts, bits=bits, digests=digests)
 
 
@@ -1459,6 +1505,534 @@ def _multi_db(tree: ast.Module) -> dict:
                 digests={'engine_def': ast_digest(ed_raw), 'engine_dbase': ast_digest(eb_raw), 'add_engine_database': ast_digest(ad)})
 
 
+# ------------------------------------------------------------------------------------------ type text of keyvalue / IO lines
+def _value_type_lookup(tree: ast.Module) -> tuple[list[tuple[str, str]], dict[str, str]]:
+    """VALUE_TYPE_LOOKUP as the module builds it: [(key, ValueTypes.value of the member)] in look-up order (a later assignment to a
+    key wins, so the explicit `VALUE_TYPE_LOOKUP['bool'] = ...` entries come first), and member name (aliases resolved) -> value."""
+    members, alias = enum_members(_cls(tree, 'ValueTypes'))
+    value_of = {n: v for n, v in members}
+    for a, c in alias.items():
+        value_of[a] = value_of[c]
+    if not all(isinstance(v, str) for v in value_of.values()):
+        raise TranslateError('ValueTypes: a member value is not a string')
+    comp = _module_assign(tree, 'VALUE_TYPE_LOOKUP')
+    ok = (isinstance(comp, ast.DictComp) and len(comp.generators) == 1 and not comp.generators[0].ifs and not comp.generators[0].is_async
+          and isinstance(comp.generators[0].target, ast.Name) and _is(comp.generators[0].iter, 'ValueTypes'))
+    if ok:
+        v = comp.generators[0].target.id   # type: ignore[union-attr]
+        ok = _is(comp.key, f'{v}.value') and _is(comp.value, v)   # type: ignore[union-attr]
+    if not ok:
+        raise TranslateError('VALUE_TYPE_LOOKUP is not `{typ.value: typ for typ in ValueTypes}`')
+    extras: list[tuple[str, str]] = []
+    defined = False
+    for st in tree.body:
+        names = {n.id for n in ast.walk(st) if isinstance(n, ast.Name)}
+        if 'VALUE_TYPE_LOOKUP' not in names:
+            continue
+        if isinstance(st, (ast.Assign, ast.AnnAssign)) and not defined and (st.value is comp):
+            defined = True
+            continue
+        if isinstance(st, (ast.FunctionDef, ast.ClassDef)):
+            for n in ast.walk(st):
+                if isinstance(n, ast.Name) and n.id == 'VALUE_TYPE_LOOKUP' and not isinstance(n.ctx, ast.Load):
+                    raise TranslateError(f'VALUE_TYPE_LOOKUP re-bound at line {n.lineno}')
+                if isinstance(n, ast.Subscript) and _is(n.value, 'VALUE_TYPE_LOOKUP') and not isinstance(n.ctx, ast.Load):
+                    raise TranslateError(f'VALUE_TYPE_LOOKUP modified at line {n.lineno}')
+                if isinstance(n, ast.Attribute) and _is(n.value, 'VALUE_TYPE_LOOKUP') and n.attr not in ('get', 'keys', 'values', 'items'):
+                    raise TranslateError(f'VALUE_TYPE_LOOKUP.{n.attr} at line {n.lineno} not supported')
+            continue
+        if (defined and isinstance(st, ast.Assign) and len(st.targets) == 1 and isinstance(st.targets[0], ast.Subscript)
+                and _is(st.targets[0].value, 'VALUE_TYPE_LOOKUP') and isinstance(st.value, ast.Attribute) and _is(st.value.value, 'ValueTypes')
+                and st.value.attr in value_of):
+            extras.append((_const(st.targets[0].slice, str, 'VALUE_TYPE_LOOKUP key'), value_of[st.value.attr]))
+            continue
+        raise TranslateError(f'module statement about VALUE_TYPE_LOOKUP not recognised at line {st.lineno}: {ast.unparse(st)[:80]}')
+    table: list[tuple[str, str]] = []
+    for k, v in reversed(extras):
+        if k not in dict(table):
+            table.append((k, v))
+    for _, v in members:
+        if v not in dict(table):
+            table.append((v, v))
+    return table, value_of
+
+
+def _ctor_arg(fn: ast.FunctionDef, keyword: str, position: int) -> str:
+    """The local passed as `keyword` (or at `position`) to the constructor call in the returned `(tags, Cls(...))` tuple."""
+    rets = [n for n in ast.walk(fn) if isinstance(n, ast.Return)]
+    if len(rets) != 1 or not (isinstance(rets[0].value, ast.Tuple) and len(rets[0].value.elts) == 2 and isinstance(rets[0].value.elts[1], ast.Call)):
+        raise TranslateError(f'{fn.name}: the single `return tags, Cls(...)` was not found')
+    call = rets[0].value.elts[1]
+    for kw in call.keywords:
+        if kw.arg == keyword:
+            arg: ast.AST = kw.value
+            break
+    else:
+        if len(call.args) <= position or any(isinstance(a, ast.Starred) for a in call.args):
+            raise TranslateError(f'{fn.name}: constructor argument `{keyword}` not found')
+        arg = call.args[position]
+    if not isinstance(arg, ast.Name):
+        raise TranslateError(f'{fn.name}: constructor argument `{keyword}` is not a local')
+    return arg.id
+
+
+def _type_prog(fn: ast.FunctionDef, value_of: dict[str, str], what: str, flag_kw: tuple[str, int] | None) -> tuple[str, dict]:
+    """Symbolic execution of the part of KVDef._parse / IODef._parse that turns the text of the PAREN_ARGS token into the type: every
+    string compared, looked up or stored becomes an expression over the raw token text (strip / casefold / [1:]); the result is a
+    Fmt/FgdTypeText.tprog.  Fail-closed on every statement that touches the tracked names in another way."""
+    tvar = _ctor_arg(fn, 'type', 1)
+    fvar = _ctor_arg(fn, *flag_kw) if flag_kw else None
+    params = {a.arg for a in ast.walk(fn.args) if isinstance(a, ast.arg)}
+    body = _body(fn)
+    raw = None
+    start = 0
+    for i, st in enumerate(body):
+        if (isinstance(st, ast.Assign) and len(st.targets) == 1 and isinstance(st.targets[0], ast.Tuple) and len(st.targets[0].elts) == 2
+                and all(isinstance(e, ast.Name) for e in st.targets[0].elts) and isinstance(st.value, ast.Call) and not st.value.args):
+            raw, start = st.targets[0].elts[1].id, i + 1   # type: ignore[attr-defined]
+            break
+    if raw is None:
+        raise TranslateError(f'{what}: `token, text = tok()` not found')
+    consumed: set[int] = set()
+
+    def sx(node: ast.AST, env: dict[str, str]) -> str | None:
+        if isinstance(node, ast.Name):
+            return env.get(node.id)
+        if isinstance(node, ast.Call) and isinstance(node.func, ast.Attribute) and not node.args and not node.keywords:
+            inner = sx(node.func.value, env)
+            if inner is None:
+                return None
+            if node.func.attr == 'strip':
+                return f'(SStrip {inner})'
+            if node.func.attr in ('casefold', 'lower'):
+                return f'(SFold {inner})'
+            raise TranslateError(f'{what}: str method .{node.func.attr}() on the type text not supported')
+        if isinstance(node, ast.Subscript):
+            inner = sx(node.value, env)
+            if inner is None:
+                return None
+            if isinstance(node.slice, ast.Slice) and node.slice.upper is None and node.slice.step is None and _is(node.slice.lower, '1'):
+                return f'(STail {inner})'
+            raise TranslateError(f'{what}: subscript of the type text not supported: {ast.unparse(node)}')
+        return None
+
+    def member(node: ast.AST) -> str:
+        if isinstance(node, ast.Attribute) and _is(node.value, 'ValueTypes') and node.attr in value_of:
+            return value_of[node.attr]
+        raise TranslateError(f'{what}: {ast.unparse(node)} is not a ValueTypes member')
+
+    def assigns_type(st: ast.stmt) -> ast.AST | None:
+        if isinstance(st, ast.Assign) and len(st.targets) == 1 and isinstance(st.targets[0], ast.Name) and st.targets[0].id == tvar:
+            consumed.add(id(st))
+            return st.value
+        return None
+
+    def lookup(st: ast.Try, env: dict[str, str]) -> str:
+        if len(st.body) != 1 or st.orelse or st.finalbody or len(st.handlers) != 1 or not _is(st.handlers[0].type, 'KeyError'):
+            raise TranslateError(f'{what}: try statement at line {st.lineno} not recognised')
+        val = assigns_type(st.body[0])
+        if not (isinstance(val, ast.Subscript) and _is(val.value, 'VALUE_TYPE_LOOKUP')):
+            raise TranslateError(f'{what}: the try body is not `T = VALUE_TYPE_LOOKUP[key]`')
+        key = sx(val.slice, env)
+        if key is None:
+            raise TranslateError(f'{what}: look-up key {ast.unparse(val.slice)} is not an expression over the type text')
+        fallback = None
+        for h in st.handlers[0].body:
+            if isinstance(h, ast.If) and isinstance(h.test, ast.Name) and h.test.id in params:
+                if not h.orelse or not all(isinstance(x, ast.Raise) for x in h.orelse):
+                    raise TranslateError(f'{what}: the strict branch of the unknown-type handler does not raise')
+                for x in h.body:
+                    v = assigns_type(x)
+                    if v is not None:
+                        if fallback is not None:
+                            raise TranslateError(f'{what}: two fall-back assignments')
+                        fallback = sx(v, env)
+                        if fallback is None:
+                            raise TranslateError(f'{what}: fall-back {ast.unparse(v)} is not an expression over the type text')
+                    elif _stores(x) & (set(env) | {tvar}) or not isinstance(x, ast.Expr):
+                        raise TranslateError(f'{what}: statement in the unknown-type handler not recognised: {ast.unparse(x)[:60]}')
+            elif _stores(h) & (set(env) | {tvar}) or not isinstance(h, (ast.Assign, ast.Expr)):
+                raise TranslateError(f'{what}: statement in the unknown-type handler not recognised: {ast.unparse(h)[:60]}')
+        if fallback is None:
+            raise TranslateError(f'{what}: no `if ignore_unknown_valuetype: T = <text>` in the KeyError handler')
+        return f'(PLookup {key} {fallback})'
+
+    def run(stmts: list[ast.stmt], env: dict[str, str]) -> str:
+        for i, st in enumerate(stmts):
+            rest = stmts[i + 1:]
+            if isinstance(st, ast.Try):
+                return lookup(st, env)
+            if isinstance(st, ast.AnnAssign) and st.value is None:
+                continue
+            if isinstance(st, ast.AnnAssign) and isinstance(st.target, ast.Name) and st.simple:
+                st = ast.copy_location(ast.Assign(targets=[st.target], value=st.value), st)
+            if isinstance(st, ast.If):
+                t = st.test
+                # `x[:1] == '*'` is `x.startswith('*')`
+                if (isinstance(t, ast.Compare) and len(t.ops) == 1 and isinstance(t.ops[0], ast.Eq) and isinstance(t.left, ast.Subscript)
+                        and isinstance(t.left.slice, ast.Slice) and t.left.slice.lower is None and t.left.slice.step is None
+                        and _is(t.left.slice.upper, '1') and _is(t.comparators[0], "'*'") and sx(t.left.value, env) is not None):
+                    t = ast.Call(func=ast.Attribute(value=t.left.value, attr='startswith', ctx=ast.Load()), args=[t.comparators[0]], keywords=[])
+                if (isinstance(t, ast.Call) and isinstance(t.func, ast.Attribute) and t.func.attr == 'startswith' and len(t.args) == 1
+                        and not t.keywords and sx(t.func.value, env) is not None):
+                    if _const(t.args[0], str, f'{what}: startswith argument') != '*' or fvar is None:
+                        raise TranslateError(f'{what}: prefix test at line {st.lineno} not recognised')
+                    env3 = dict(env)
+                    for x in st.orelse:      # the other branch may only name expressions over the type text
+                        v = sx(x.value, env3) if isinstance(x, ast.Assign) and len(x.targets) == 1 and isinstance(x.targets[0], ast.Name) else None
+                        if v is None or x.targets[0].id == fvar:   # type: ignore[attr-defined]
+                            raise TranslateError(f'{what}: statement in the else branch of the `*` test not recognised: {ast.unparse(x)[:60]}')
+                        env3[x.targets[0].id] = v   # type: ignore[attr-defined]
+                    env2 = dict(env)
+                    flagged = False
+                    for x in st.body:
+                        if isinstance(x, ast.Assign) and len(x.targets) == 1 and isinstance(x.targets[0], ast.Name):
+                            if x.targets[0].id == fvar and _is(x.value, 'True'):
+                                flagged = True
+                                continue
+                            v = sx(x.value, env2)
+                            if v is not None:
+                                env2[x.targets[0].id] = v
+                                continue
+                        raise TranslateError(f'{what}: statement under the `*` test not recognised: {ast.unparse(x)[:60]}')
+                    if not flagged:
+                        raise TranslateError(f'{what}: the `*` branch does not set the reportable flag')
+                    return f'(PIfStar {sx(t.func.value, env)} {run(rest, env2)} {run(rest, env3)})'
+                if isinstance(t, ast.Compare) and len(t.ops) == 1 and isinstance(t.ops[0], ast.Eq):
+                    a, b = t.left, t.comparators[0]
+                    if sx(b, env) is not None:
+                        a, b = b, a
+                    e = sx(a, env)
+                    if e is not None:
+                        lit = _const(b, str, f'{what}: literal compared with the type text')
+                        if len(st.body) != 1 or assigns_type(st.body[0]) is None:
+                            raise TranslateError(f'{what}: body of `if <text> == {lit!r}` is not one assignment of the type')
+                        return f'(PIfEq {e} {_cstr(lit)} {_cstr(member(st.body[0].value))} {run(list(st.orelse) + rest, env)})'   # type: ignore[attr-defined]
+            if isinstance(st, ast.Assign) and len(st.targets) == 1 and isinstance(st.targets[0], ast.Name):
+                v = sx(st.value, env)
+                if v is not None:
+                    env = {**env, st.targets[0].id: v}
+                    continue
+            hit = _stores(st) & (set(env) | {tvar})
+            if hit:
+                # the only other way the tracked names may be bound: a fresh `token, text = tok()` (after the tags)
+                for n in ast.walk(st):
+                    if isinstance(n, (ast.Assign, ast.AugAssign, ast.AnnAssign, ast.NamedExpr, ast.For, ast.With)) and _stores(n) & hit:
+                        if not (isinstance(n, ast.Assign) and len(n.targets) == 1 and isinstance(n.targets[0], ast.Tuple)
+                                and isinstance(n.value, ast.Call) and not n.value.args and _stores(n) & hit == {raw}):
+                            if isinstance(n, (ast.For, ast.With)) and not (_stores(n) & hit):
+                                continue
+                            if isinstance(n, ast.Assign) and not any(_stores(t) & hit for t in n.targets):
+                                continue
+                            raise TranslateError(f'{what}: the type text is re-bound at line {n.lineno}: {ast.unparse(n)[:60]}')
+                env = {raw: 'SRaw'}
+        raise TranslateError(f'{what}: no VALUE_TYPE_LOOKUP look-up found')
+
+    prog = run(body[start:], {raw: 'SRaw'})
+    total = sum(1 for n in ast.walk(fn) if isinstance(n, ast.Name) and n.id == tvar and isinstance(n.ctx, (ast.Store, ast.Del)))
+    total -= sum(1 for n in ast.walk(fn) if isinstance(n, ast.AnnAssign) and n.value is None and isinstance(n.target, ast.Name) and n.target.id == tvar)
+    if total != len(consumed):
+        raise TranslateError(f'{what}: the type local {tvar} is bound {total} times, the recognised program accounts for {len(consumed)}')
+    return prog, {'raw': raw, 'type_local': tvar, 'flag_local': fvar, 'program': prog}
+
+
+def _io_decay(tree: ast.Module, value_of: dict[str, str]) -> dict:
+    """VALUE_TO_IO_DECAY as the module builds it (`{typ: typ if typ.valid_for_io else ValueTypes.STRING for typ in ValueTypes}` with the
+    set literal of ValueTypes.valid_for_io, then the explicit assignments) as canonical text -> canonical text, and the type branch of
+    IODef.export: members written as a literal (`(bool)`), every other member as VALUE_TO_IO_DECAY[member].value."""
+    members, alias = enum_members(_cls(tree, 'ValueTypes'))
+    comp = _module_assign(tree, 'VALUE_TO_IO_DECAY')
+    ok = (isinstance(comp, ast.DictComp) and len(comp.generators) == 1 and not comp.generators[0].ifs and isinstance(comp.generators[0].target, ast.Name)
+          and _is(comp.generators[0].iter, 'ValueTypes'))
+    dflt = None
+    if ok:
+        v = comp.generators[0].target.id   # type: ignore[union-attr]
+        val = comp.value                   # type: ignore[union-attr]
+        ok = _is(comp.key, v) and isinstance(val, ast.IfExp) and _is(val.test, f'{v}.valid_for_io') and _is(val.body, v) and isinstance(
+            val.orelse, ast.Attribute) and _is(val.orelse.value, 'ValueTypes') and val.orelse.attr in value_of   # type: ignore[union-attr]
+        if ok:
+            dflt = value_of[val.orelse.attr]   # type: ignore[union-attr]
+    if not ok or dflt is None:
+        raise TranslateError('VALUE_TO_IO_DECAY is not `{typ: typ if typ.valid_for_io else ValueTypes.X for typ in ValueTypes}`')
+    prop = [n for n in _cls(tree, 'ValueTypes').body if isinstance(n, ast.FunctionDef) and n.name == 'valid_for_io']
+    pb = _body(prop[0]) if len(prop) == 1 else []
+    if not (len(pb) == 1 and isinstance(pb[0], ast.Return) and isinstance(pb[0].value, ast.Compare) and _is(pb[0].value.left, 'self.value')
+            and len(pb[0].value.ops) == 1 and isinstance(pb[0].value.ops[0], ast.In) and isinstance(pb[0].value.comparators[0], (ast.Set, ast.Tuple, ast.List))):
+        raise TranslateError('ValueTypes.valid_for_io is not `return self.value in {...}`')
+    valid = {_const(e, str, 'valid_for_io member') for e in pb[0].value.comparators[0].elts}
+    decay = {v: (v if v in valid else dflt) for _, v in members}
+    seen_def = False
+    for st in tree.body:
+        if not any(isinstance(n, ast.Name) and n.id == 'VALUE_TO_IO_DECAY' for n in ast.walk(st)):
+            continue
+        if isinstance(st, (ast.Assign, ast.AnnAssign)) and st.value is comp:
+            seen_def = True
+            continue
+        if isinstance(st, (ast.FunctionDef, ast.ClassDef)):
+            for n in ast.walk(st):
+                if isinstance(n, ast.Subscript) and _is(n.value, 'VALUE_TO_IO_DECAY') and not isinstance(n.ctx, ast.Load):
+                    raise TranslateError(f'VALUE_TO_IO_DECAY modified at line {n.lineno}')
+                if isinstance(n, ast.Attribute) and _is(n.value, 'VALUE_TO_IO_DECAY') and n.attr not in ('get', 'keys', 'values', 'items'):
+                    raise TranslateError(f'VALUE_TO_IO_DECAY.{n.attr} at line {n.lineno} not supported')
+            continue
+        if (seen_def and isinstance(st, ast.Assign) and len(st.targets) == 1 and isinstance(st.targets[0], ast.Subscript) and _is(st.targets[0].value, 'VALUE_TO_IO_DECAY')
+                and isinstance(st.targets[0].slice, ast.Attribute) and _is(st.targets[0].slice.value, 'ValueTypes') and st.targets[0].slice.attr in value_of
+                and isinstance(st.value, ast.Attribute) and _is(st.value.value, 'ValueTypes') and st.value.attr in value_of):
+            decay[value_of[st.targets[0].slice.attr]] = value_of[st.value.attr]
+            continue
+        raise TranslateError(f'module statement about VALUE_TO_IO_DECAY not recognised at line {st.lineno}: {ast.unparse(st)[:80]}')
+    # IODef.export: if self._type is ValueTypes.X: write('(lit)') ... elif isinstance(self._type, ValueTypes): write(f'({VALUE_TO_IO_DECAY[self._type].value})') else: custom
+    exp = _method(tree, 'IODef', 'export')
+    chain = [st for st in _body(exp) if isinstance(st, ast.If) and any(isinstance(n, ast.Name) and n.id == 'VALUE_TO_IO_DECAY' for n in ast.walk(st))]
+    if len(chain) != 1:
+        raise TranslateError('IODef.export: the type branch was not found')
+    node: ast.stmt = chain[0]
+    special: list[tuple[str, str]] = []
+    general = False
+    while isinstance(node, ast.If):
+        t = node.test
+        if (isinstance(t, ast.Compare) and _is(t.left, 'self._type') and len(t.ops) == 1 and isinstance(t.ops[0], ast.Is)
+                and isinstance(t.comparators[0], ast.Attribute) and _is(t.comparators[0].value, 'ValueTypes') and t.comparators[0].attr in value_of and not general):
+            if not (len(node.body) == 1 and isinstance(node.body[0], ast.Expr) and isinstance(node.body[0].value, ast.Call) and _is(node.body[0].value.func, 'file.write')
+                    and len(node.body[0].value.args) == 1):
+                raise TranslateError('IODef.export: a special type branch is not one write')
+            lit = _const(node.body[0].value.args[0], str, 'IODef.export literal type text')
+            if not (lit.startswith('(') and lit.endswith(')')):
+                raise TranslateError(f'IODef.export: literal type text {lit!r} is not parenthesised')
+            special.append((value_of[t.comparators[0].attr], lit[1:-1]))
+        elif _is(t, 'isinstance(self._type, ValueTypes)') and not general:
+            if not (len(node.body) == 1 and _is(node.body[0], "file.write(f'({VALUE_TO_IO_DECAY[self._type].value})')")):
+                raise TranslateError('IODef.export: the member branch does not write `({VALUE_TO_IO_DECAY[self._type].value})`')
+            general = True
+        else:
+            raise TranslateError(f'IODef.export: type test not recognised: {ast.unparse(t)[:60]}')
+        if len(node.orelse) == 1 and isinstance(node.orelse[0], ast.If):
+            node = node.orelse[0]
+        else:
+            break
+    if not general:
+        raise TranslateError('IODef.export: no branch for ValueTypes members')
+    return {'decay': [(v, decay[v]) for _, v in members], 'special': special, 'valid_for_io': sorted(valid), 'default': dflt}
+
+
+
+def _type_text(tree: ast.Module) -> dict:
+    table, value_of = _value_type_lookup(tree)
+    kv_prog, kv_side = _type_prog(_method(tree, 'KVDef', '_parse'), value_of, 'KVDef._parse', ('reportable', 7))
+    io_prog, io_side = _type_prog(_method(tree, 'IODef', '_parse'), value_of, 'IODef._parse', None)
+    # writers: the custom branch writes the stored text itself
+    for cls in ('KVDef', 'IODef'):
+        fn = _method(tree, cls, 'export')
+        custom = [n for n in ast.walk(fn) if isinstance(n, ast.JoinedStr) and any(
+            isinstance(v, ast.FormattedValue) and _is(v.value, 'self._type') for v in n.values)]
+        vals = custom[0].values if len(custom) == 1 else []
+        if not (len(vals) == 3 and isinstance(vals[0], ast.Constant) and vals[0].value == '(' and isinstance(vals[1], ast.FormattedValue)
+                and vals[1].conversion == -1 and vals[1].format_spec is None and isinstance(vals[2], ast.Constant)
+                and isinstance(vals[2].value, str) and vals[2].value.strip() == ')'):
+            raise TranslateError(f'{cls}.export: the custom type is not written as `({{self._type}})`')
+    return {'table': table, 'kv_prog': kv_prog, 'io_prog': io_prog, 'kv': kv_side, 'io': io_side, 'io_decay': _io_decay(tree, value_of)}
+
+
+
+# ------------------------------------------------------------------------------------------ build_blocks / serialise
+_CMP_FN = {'Lt': 'N.ltb', 'LtE': 'N.leb', 'Gt': '(fun a b => N.ltb b a)', 'GtE': '(fun a b => N.leb b a)'}
+
+
+def _build_blocks(tree: ast.Module) -> dict:
+    """The decisive shape of _engine_db.build_blocks (SM/FgdBlocks.v): the three size comparisons, and where blocks without entities
+    are dropped from the list that is returned - before the entities that no pair placed are distributed (then the first overflow
+    block is filled after it left the list: they are never written) and/or afterwards.  serialise(): both loops (class-name table,
+    block data) run over the list build_blocks returned and the data loop writes every entity of the block."""
+    fn = _normalise(_fn(tree, 'build_blocks'), tree)
+    body = [st for st in _body(fn) if not isinstance(st, ast.ClassDef)]
+    if len([st for st in _body(fn) if isinstance(st, ast.ClassDef)]) != 1:
+        raise TranslateError('build_blocks: the local block class was not found')
+    loops = [i for i, st in enumerate(body) if isinstance(st, ast.For)]
+    if len(loops) < 2:
+        raise TranslateError('build_blocks: pair loop and leftover loop not found')
+    i_pair, i_left = loops[0], loops[1]
+    pair, left = body[i_pair], body[i_left]
+    # the list that is returned, the overflow block, the set of unplaced entities
+    lst = None
+    for st in body[:i_pair]:
+        if isinstance(st, (ast.Assign, ast.AnnAssign)) and isinstance(st.value, ast.List) and len(st.value.elts) == 1 and isinstance(st.value.elts[0], ast.Name):
+            tgt = st.targets[0] if isinstance(st, ast.Assign) else st.target
+            if isinstance(tgt, ast.Name):
+                lst, ovf = tgt.id, st.value.elts[0].id
+    if lst is None:
+        raise TranslateError('build_blocks: `all_blocks = [overflow_block]` not found')
+    # pair loop: operators by role, and a census of what it does with the list
+    cmps = [n for n in ast.walk(pair) if isinstance(n, ast.Compare) and len(n.ops) == 1 and type(n.ops[0]).__name__ in _CMP_FN
+            and any(isinstance(x, ast.Name) and x.id == 'MAX_BLOCK_SIZE' or isinstance(x, ast.Constant) and isinstance(x.value, int)
+                    for x in ast.walk(n.comparators[0]))]
+    merge_ops = [type(n.ops[0]).__name__ for n in cmps if sum(1 for x in ast.walk(n.left) if isinstance(x, ast.Attribute) and x.attr == 'bytesize') == 2]
+    add_ops = [type(n.ops[0]).__name__ for n in cmps if sum(1 for x in ast.walk(n.left) if isinstance(x, ast.Attribute) and x.attr == 'bytesize') == 1]
+    if len(merge_ops) != 1 or len(add_ops) != 2 or len(set(add_ops)) != 1 or len(cmps) != 3:
+        raise TranslateError(f'build_blocks: size tests of the pair loop not recognised (merge {merge_ops}, add {add_ops})')
+    calls = [n for n in ast.walk(pair) if isinstance(n, ast.Call) and isinstance(n.func, ast.Attribute)]
+    census = {'add_ent': sum(1 for c in calls if c.func.attr == 'add_ent'),
+              'remove': sum(1 for c in calls if c.func.attr == 'remove' and _is(c.func.value, lst)),
+              'append': sum(1 for c in calls if c.func.attr == 'append' and _is(c.func.value, lst))}
+    if census != {'add_ent': 5, 'remove': 1, 'append': 1} or _stores(pair) & {lst, ovf}:
+        raise TranslateError(f'build_blocks: pair loop not recognised (calls {census})')
+    # between the loops / after the leftover loop: where are blocks dropped from the list?
+
+    def drops(stmts: list[ast.stmt]) -> bool:
+        found = False
+        for st in stmts:
+            touches = any(isinstance(n, ast.Name) and n.id == lst for n in ast.walk(st))
+            if not touches:
+                continue
+            if _is(st, f'if not {ovf}.ents:\n    {lst}.remove({ovf})') or _is(st, f'if len({ovf}.ents) == 0:\n    {lst}.remove({ovf})'):
+                found = True
+            elif (isinstance(st, ast.Assign) and len(st.targets) == 1 and isinstance(st.targets[0], ast.Name) and st.targets[0].id == lst and isinstance(st.value, ast.ListComp)
+                  and len(st.value.generators) == 1 and _is(st.value.generators[0].iter, lst) and isinstance(st.value.generators[0].target, ast.Name)
+                  and _is(st.value.elt, st.value.generators[0].target.id) and len(st.value.generators[0].ifs) == 1
+                  and any(_is(st.value.generators[0].ifs[0], form.format(b=st.value.generators[0].target.id))
+                          for form in ('{b}.ents', 'len({b}.ents) > 0', 'len({b}.ents)', '{b}.ents != []', 'len({b}.ents) != 0', 'len({b}.ents) >= 1'))):
+                found = True
+            elif isinstance(st, ast.Expr) and isinstance(st.value, ast.Call) and _is(st.value.func, f'{lst}.sort'):
+                continue
+            elif isinstance(st, (ast.For, ast.Return)) and not (_stores(st) & {lst}) and not any(
+                    isinstance(n, ast.Call) and isinstance(n.func, ast.Attribute) and _is(n.func.value, lst) for n in ast.walk(st)):
+                continue       # reads only (statistics, the returned list)
+            elif isinstance(st, ast.Expr) and isinstance(st.value, ast.Call) and _is(st.value.func, 'print'):
+                continue
+            else:
+                raise TranslateError(f'build_blocks: statement about {lst} not recognised at line {st.lineno}: {ast.unparse(st)[:70]}')
+        return found
+    before = drops(body[i_pair + 1:i_left])
+    after = drops(body[i_left + 1:])
+    # leftover loop
+    lb = left.body
+    ok = (_is(left.iter, 'list(todo)') or _is(left.iter, 'todo') or _is(left.iter, 'sorted(todo)') or _is(left.iter, 'tuple(todo)')) and isinstance(left.target, ast.Name)
+    e = left.target.id if ok else ''
+    ok = ok and len(lb) == 2 and _is(lb[0], f'{ovf}.add_ent({e})') and isinstance(lb[1], ast.If) and not lb[1].orelse
+    if ok:
+        t = lb[1].test
+        ok = (isinstance(t, ast.Compare) and len(t.ops) == 1 and type(t.ops[0]).__name__ in _CMP_FN and _is(t.left, f'{ovf}.bytesize')
+              and (_is(t.comparators[0], 'MAX_BLOCK_SIZE') or isinstance(t.comparators[0], ast.Constant)))
+        stm = sorted(ast.unparse(x) for x in lb[1].body)
+        ok = ok and len(stm) == 2 and stm[0] == f'{lst}.append({ovf})' and stm[1].startswith(f'{ovf} = ') and stm[1].endswith('()')
+    if not ok:
+        raise TranslateError('build_blocks: leftover loop not recognised')
+    ovf_op = type(lb[1].test.ops[0]).__name__   # type: ignore[attr-defined]
+    # serialise: header loop and data loop over the returned list; the data loop writes every entity
+    ser = _fn(tree, 'serialise')
+    res = [st.targets[0].id for st in _body(ser) if isinstance(st, ast.Assign) and len(st.targets) == 1 and isinstance(st.targets[0], ast.Name)
+           and isinstance(st.value, ast.Call) and _is(st.value.func, 'build_blocks')]
+    if len(res) != 1:
+        raise TranslateError('serialise: `blocks = build_blocks(...)` not found')
+    loops = [st for st in _body(ser) if isinstance(st, ast.For) and _is(st.iter, res[0])]
+    writes_all = False
+    names_all = False
+    for lp in loops:
+        if not (isinstance(lp.target, ast.Tuple) and len(lp.target.elts) == 2 and isinstance(lp.target.elts[0], ast.Name)):
+            continue
+        be = lp.target.elts[0].id
+        for n in ast.walk(lp):
+            if isinstance(n, ast.For) and _is(n.iter, be) and isinstance(n.target, ast.Name) and any(
+                    isinstance(c, ast.Call) and _is(c.func, 'ent_serialise') and c.args and _is(c.args[0], n.target.id) for c in ast.walk(n)):
+                writes_all = True
+            if isinstance(n, ast.GeneratorExp) and len(n.generators) == 1 and _is(n.generators[0].iter, be) and not n.generators[0].ifs and isinstance(
+                    n.generators[0].target, ast.Name) and _is(n.elt, f'{n.generators[0].target.id}.classname'):
+                names_all = True
+    return {'merge_op': merge_ops[0], 'add_op': add_ops[0], 'ovf_op': ovf_op, 'drop_before': before, 'drop_after': after,
+            'serialise_loops': len(loops), 'serialise_writes_every_entity': writes_all and names_all and len(loops) == 2}
+
+
+
+# ------------------------------------------------------------------------------------------ entity keyword / top-level dispatch
+def _kind_keyword(tree: ast.Module) -> dict:
+    """FGD.parse_file: how a top-level STRING token is normalised, the directive keywords in program order, the final look-up
+    `EntityTypes(token[1:])` for every other '@' token; EntityDef.export: the chain of str methods applied to `self.type.value`
+    after the '@' (Fmt/FgdKindKw.v)."""
+    exp = _method(tree, 'EntityDef', 'export')
+    ops: list[str] | None = None
+    for st in _body(exp):
+        if isinstance(st, ast.Expr) and isinstance(st.value, ast.Call) and _is(st.value.func, 'file.write') and len(st.value.args) == 1:
+            a = st.value.args[0]
+            if not (isinstance(a, ast.JoinedStr) and len(a.values) == 3 and isinstance(a.values[0], ast.Constant) and a.values[0].value == '@'
+                    and isinstance(a.values[1], ast.FormattedValue) and a.values[1].conversion == -1 and a.values[1].format_spec is None
+                    and isinstance(a.values[2], ast.Constant) and a.values[2].value == ' '):
+                raise TranslateError('EntityDef.export: the first write is not `@<kind keyword> `')
+            ops = []
+            e = a.values[1].value
+            while not _is(e, 'self.type.value'):
+                if not (isinstance(e, ast.Call) and isinstance(e.func, ast.Attribute) and not e.keywords):
+                    raise TranslateError(f'EntityDef.export: kind keyword expression not recognised: {ast.unparse(a.values[1].value)}')
+                m = e.func.attr
+                if m == 'title' and not e.args:
+                    ops.append('WTitle')
+                elif m in ('lower', 'casefold') and not e.args:
+                    ops.append('WLower')
+                elif m == 'upper' and not e.args:
+                    ops.append('WUpper')
+                elif m == 'replace' and len(e.args) == 2:
+                    ops.append(f'(WReplace {_cstr(_const(e.args[0], str, "replace"))} {_cstr(_const(e.args[1], str, "replace"))})')
+                else:
+                    raise TranslateError(f'EntityDef.export: str method .{m}() on the kind keyword not supported')
+                e = e.func.value
+            ops.reverse()
+            break
+    if ops is None:
+        raise TranslateError('EntityDef.export: no write of the kind keyword found')
+    pf = _method(tree, 'FGD', 'parse_file')
+    loops = [n for n in ast.walk(pf) if isinstance(n, ast.For) and isinstance(n.target, ast.Tuple) and len(n.target.elts) == 2
+             and all(isinstance(x, ast.Name) for x in n.target.elts) and isinstance(n.iter, ast.Name)]
+    top = [n for n in loops if any(isinstance(x, ast.Call) and _is(x.func, 'EntityDef.parse') for x in ast.walk(n))]
+    if len(top) < 1:
+        raise TranslateError('FGD.parse_file: top-level token loop not found')
+    loop = top[0]
+    tokv = loop.target.elts[1].id   # type: ignore[attr-defined]
+    folded = False
+    chain: ast.If | None = None
+    for st in loop.body:
+        if isinstance(st, ast.Assign) and len(st.targets) == 1 and isinstance(st.targets[0], ast.Name) and st.targets[0].id == tokv:
+            if _is(st.value, f'{tokv}.casefold()') or _is(st.value, f'{tokv}.lower()'):
+                folded = True
+                continue
+            raise TranslateError(f'FGD.parse_file: the token text is re-bound: {ast.unparse(st)[:60]}')
+        if isinstance(st, ast.If) and isinstance(st.test, ast.Compare) and _is(st.test.left, tokv) and len(st.test.ops) == 1 and isinstance(
+                st.test.ops[0], ast.Eq) and isinstance(st.test.comparators[0], ast.Constant) and isinstance(st.test.comparators[0].value, str):
+            chain = st
+            break
+        if _stores(st) & {tokv}:
+            raise TranslateError(f'FGD.parse_file: the token text is re-bound: {ast.unparse(st)[:60]}')
+    if chain is None:
+        raise TranslateError('FGD.parse_file: keyword dispatch chain not found')
+    directives: list[str] = []
+    node: ast.stmt = chain
+    final_ok = False
+    while True:
+        assert isinstance(node, ast.If)
+        t = node.test
+        if (isinstance(t, ast.Compare) and _is(t.left, tokv) and len(t.ops) == 1 and isinstance(t.ops[0], ast.Eq)
+                and isinstance(t.comparators[0], ast.Constant) and isinstance(t.comparators[0].value, str)):
+            directives.append(t.comparators[0].value)
+        elif _is(t, f"{tokv}[:1] == '@'") or _is(t, f"{tokv}.startswith('@')"):
+            look = [x for x in ast.walk(node) if isinstance(x, ast.Call) and _is(x.func, 'EntityTypes')]
+            ok = len(look) == 1 and len(look[0].args) == 1 and _is(look[0].args[0], f'{tokv}[1:]')
+            ok = ok and len(node.orelse) >= 1 and all(isinstance(x, ast.Raise) for x in node.orelse)
+            if not ok:
+                raise TranslateError('FGD.parse_file: the entity keyword branch is not `EntityTypes(token[1:])` with an error branch after it')
+            final_ok = True
+            break
+        else:
+            raise TranslateError(f'FGD.parse_file: dispatch test not recognised: {ast.unparse(t)[:60]}')
+        if len(node.orelse) == 1 and isinstance(node.orelse[0], ast.If):
+            node = node.orelse[0]
+        else:
+            break
+    if not final_ok:
+        raise TranslateError('FGD.parse_file: no entity keyword branch at the end of the dispatch chain')
+    et_members, _ = enum_members(_cls(tree, 'EntityTypes'))
+    if not all(isinstance(v, str) for _, v in et_members):
+        raise TranslateError('EntityTypes: a member value is not a string')
+    return {'folded': folded, 'directives': directives, 'writer_ops': ops, 'kinds': [v for _, v in et_members]}
+
+
+
 # ------------------------------------------------------------------------------------------ emit
 def _nlist(xs) -> str:
     return '[' + '; '.join(str(int(x)) for x in xs) + ']%N'
@@ -1487,13 +2061,15 @@ def translate() -> tuple[str, dict]:
     fe = _fgd_escape(fgd_tree)
     db = _engine_db()
     md = _multi_db(fgd_tree)
+    tt = _type_text(fgd_tree)
+    kk = _kind_keyword(fgd_tree)
     for op in (wl['loop_op'], wl['nl_op']):
         if op not in OPS:
             raise TranslateError(f'comparison operator {op} not supported')
     ef = dict(db['ef_members'])
     lines = [
         '(* GENERATED by translate/c16_fgd.py from srctools/fgd.py, _engine_db.py, tokenizer.py, const.py. Do not edit. *)',
-        'From Coq Require Import List NArith String.', 'From SV Require Import Fmt.LongString Fmt.FgdLine SM.LazyDbMulti.',
+        'From Coq Require Import List NArith String.', 'From SV Require Import Fmt.LongString Fmt.FgdLine Fmt.FgdTypeText SM.LazyDbMulti SM.FgdBlocks Fmt.FgdKindKw.',
         'Import ListNotations.', 'Open Scope string_scope.',
         'Inductive cmp_op := OpGt | OpGe | OpLt | OpLe | OpEq | OpNe.',
         '(* tokenizer.ESCAPES as (symbol, character); characters escape_text() never escapes *)',
@@ -1516,6 +2092,13 @@ def translate() -> tuple[str, dict]:
         f'Definition gen_line_cfg : FgdLine.line_cfg := {{| FgdLine.colons_before_desc_without_default := {tw["colons_without_default"]}; '
         f'FgdLine.bool_default_filled := {_b(tw["bool_fill"])}; FgdLine.res_block_if_defined := {_b(tw["res_if_defined"])} |}}.',
         f'Definition kv_colons_after_default : nat := {tw["colons_with_default"]}.',
+        '(* KVDef._parse / IODef._parse: how the text between the parentheses becomes the type (Fmt/FgdTypeText.v); VALUE_TYPE_LOOKUP *)',
+        'Definition vt_lookup_tab : list (list N * list N) := [' + '; '.join(f'({_cstr(k)}, {_cstr(v)})' for k, v in tt['table']) + '].',
+        f'Definition kv_type_prog : tprog := {tt["kv_prog"][1:-1]}.',
+        '(* VALUE_TO_IO_DECAY (canonical text -> canonical text of the decayed member) and the members IODef.export writes as a literal *)',
+        'Definition io_decay_tab : list (list N * list N) := [' + '; '.join(f'({_cstr(k)}, {_cstr(v)})' for k, v in tt['io_decay']['decay']) + '].',
+        'Definition io_special_text : list (list N * list N) := [' + '; '.join(f'({_cstr(k)}, {_cstr(v)})' for k, v in tt['io_decay']['special']) + '].',
+        f'Definition io_type_prog : tprog := {tt["io_prog"][1:-1]}.',
         '(* _engine_db tables *)',
         f'Definition value_types_all : list string := {_slist(n for n, _ in db["vt_members"])}.',
         f'Definition value_type_order : list string := {_slist(db["vt_order"])}.',
@@ -1540,6 +2123,17 @@ def translate() -> tuple[str, dict]:
         '(* the database list; EntityDef.engine_def returns the first database (in that order) that knows the class *)',
         f'Definition engine_dbase_merge : merge_mode := {"FirstWins" if md["effective_first"] else "LastWins"}.',
         f'Definition engine_def_returns_first_hit : bool := {_b(md["first_hit"])}.',
+        '(* FGD.parse_file top-level dispatch and the kind keyword EntityDef.export writes (Fmt/FgdKindKw.v) *)',
+        f'Definition pf_token_folded : bool := {_b(kk["folded"])}.',
+        'Definition pf_directives : list (list N) := [' + '; '.join(_cstr(d) for d in kk['directives']) + '].',
+        'Definition entity_kind_values : list (list N) := [' + '; '.join(_cstr(d) for d in kk['kinds']) + '].',
+        'Definition kind_writer_ops : list wop := [' + '; '.join(o[1:-1] if o.startswith('(') else o for o in kk['writer_ops']) + '].',
+        '(* _engine_db.build_blocks: size tests by role, and where blocks without entities leave the list (SM/FgdBlocks.v); serialise *)',
+        'Definition gen_bcfg : bcfg := {| merge_fits := %s; add_fits := %s; ovf_full := %s; drop_empty_before_leftovers := %s; '
+        'drop_empty_after_leftovers := %s |}.' % (_CMP_FN[db['build_blocks']['merge_op']], _CMP_FN[db['build_blocks']['add_op']],
+                                                   _CMP_FN[db['build_blocks']['ovf_op']], _b(db['build_blocks']['drop_before']), _b(db['build_blocks']['drop_after'])),
+        f'Definition max_block_size : N := {db["consts"]["MAX_BLOCK_SIZE"]}%N.',
+        f'Definition serialise_writes_every_entity : bool := {_b(db["build_blocks"]["serialise_writes_every_entity"])}.',
         '(* every bit operation with an integer literal in the (un)serialisers: (function, operator, literal) *)',
         'Definition bit_ops : list (string * string * N) := [' + '; '.join(
             f'("{fn}", "{op}", {lit}%N)' for fn, ops in db['bits'].items() for op, lit, _ in ops) + '].',
@@ -1547,7 +2141,7 @@ def translate() -> tuple[str, dict]:
     ]
     if wl['notfound'] < 0:
         raise TranslateError('not-found comparison value is negative')
-    side = dict(multi_db=md, write_longstring=wl, fgd_escape=fe, text_writers=tw, tokenizer=tok_side, engine_db={k: v for k, v in db.items() if k != 'bits'},
+    side = dict(type_text=tt, kind_keyword=kk, multi_db=md, write_longstring=wl, fgd_escape=fe, text_writers=tw, tokenizer=tok_side, engine_db={k: v for k, v in db.items() if k != 'bits'},
                 bit_ops=db['bits'])
     return '\n'.join(lines), side
 
